@@ -4,7 +4,9 @@ model), plus request parsing shared with C07.
 Clauses checked on the implementation's answer to `bisect <poly> <lo> <init> <hi> <tol> <itermax> <mode>`:
 
  1. never a panic (a panic, a wrapper mismatch or a dead harness is a failure);
- 2. `init < lo` or `init > hi`  <=>  `err XInitOutOfBounds` (rejected up front, and only then);
+ 2. `init < lo` or `init > hi`  =>  an error value, returned before any loop pass ("rejected up front"; the statement
+    does not name the error variant, so any `err` is accepted, and it does not forbid rejecting other inputs - an
+    inside guess that is wrongly refused is seen by clause 4 and by the correspondence K);
  3. every `ok x`: x finite, lo <= x <= hi exactly, and |g(x)| < 1e-4 (+ rounding slack) with g the
     polynomial (root mode) or its exact derivative (extrema mode), evaluated in exact rationals from
     the bit patterns of the request;
@@ -187,11 +189,13 @@ def oracle(req, impl):
     if any(math.isnan(v) or math.isinf(v) for v in nums):
         return None       # non-finite bracket ends are outside the quantifier: only "no panic" (above) is demanded
     outside = r.init < r.lo or r.init > r.hi
-    is_x = it[0] == "err" and it[1] == "XInitOutOfBounds"
-    if outside and not is_x:
-        return "init outside [lo, hi] was not rejected with XInitOutOfBounds: " + impl[:60]
-    if is_x and not outside:
-        return "XInitOutOfBounds for an init inside the bracket"
+    if outside:
+        if it[0] != "err":
+            return "init outside [lo, hi] was not rejected: " + impl[:60]
+        # `err <Kind> <passes>`: up front = before the first loop pass (no evaluation of the target was counted)
+        if len(it) >= 3 and it[2].isdigit() and int(it[2]) != 0:
+            return "init outside [lo, hi] was not rejected up front: the error value came back only after %s loop passes: %s" % (it[2], impl[:60])
+        return None
     if it[0] == "ok":
         x = fbits(it[1][1:])
         if not math.isfinite(x):
@@ -227,6 +231,56 @@ def oracle(req, impl):
         return None
     return ("g changes sign on the bracket (or vanishes on an end), is moderately scaled, budget >= 2000 and the "
             "tolerance is small, but no value was returned: " + impl[:60])
+
+
+# ----------------------------------------------------------------------------- K: model vs implementation
+#
+# Answers are `ok f<x> <passes>` | `err <Kind> <passes>` | `panic` (C06 and C07 share this rule).
+#  * ok / err / panic must agree, and two returned values must agree (bit-equal, both NaN, or 1e-9 relative - the
+#    framework's default rule for floats): which x comes back is what the theorems about the model are about.
+#  * two ERRORS agree whatever their kind: the statements say "an error value" / "rejected" and never name a variant.
+#  * the pass count is evidence, not part of the statement (no clause speaks of the number of iterations; "no endless
+#    loop" is the hang detection of ./check, "rejected up front" is clause 2 of the oracle): it is not compared.
+#  * `marginal` (a trailing `~` the C07 harness appends): some stop test of this run was decided within rounding of its
+#    threshold - see harness/src/c07.rs - so model and implementation may legitimately take different exits; such a
+#    request is judged by S alone.
+
+def _fbits(tok):
+    if len(tok) < 2 or tok[0] != "f" or not tok[1:].isdigit():
+        return None
+    return fbits(tok[1:])
+
+
+def _close(x, y):
+    if x != x or y != y:
+        return x != x and y != y
+    if x == y:
+        return True
+    if math.isinf(x) or math.isinf(y):
+        return False
+    return abs(x - y) <= 1e-9 * max(abs(x), abs(y), 1e-300)
+
+
+def compare(req, impl, model):
+    ti, tm = impl.split(), model.split()
+    marginal = bool(ti) and ti[-1] == "~"
+    if marginal:
+        ti = ti[:-1]
+    if not ti or not tm:
+        return "empty answer: impl %r model %r" % (impl[:60], model[:60])
+    why = None
+    if ti[0] != tm[0]:
+        why = "field 0: impl %s model %s" % (ti[0], tm[0])
+    elif ti[0] == "ok":
+        x = _fbits(ti[1]) if len(ti) > 1 else None
+        y = _fbits(tm[1]) if len(tm) > 1 else None
+        if x is None or y is None or not _close(x, y):
+            why = "field 1: impl %s model %s" % (" ".join(ti[1:2]), " ".join(tm[1:2]))
+    elif ti[0] != "err" and ti != tm:
+        why = "impl %s model %s" % (impl[:60], model[:60])
+    if why is not None and marginal and ti[0] in ("ok", "err") and tm[0] in ("ok", "err"):
+        return None
+    return why
 
 
 def nontrivial(req, model):
